@@ -511,7 +511,17 @@ func AppendArr(col any, rt *refproto.Type, vals []any) (ok bool, err error) {
 	if err != nil {
 		return false, nil
 	}
-	m.Call([]reflect.Value{a})
+	// the caller's slice has spare capacity and is the caller's to reuse: it is
+	// overwritten as soon as the call returns, so a column that kept it instead of
+	// copying no longer holds what was appended
+	b := reflect.MakeSlice(a.Type(), a.Len(), a.Len()+8)
+	reflect.Copy(b, a)
+	m.Call([]reflect.Value{b})
+	zero := reflect.Zero(a.Type().Elem())
+	full := b.Slice(0, b.Cap())
+	for i := 0; i < full.Len(); i++ {
+		full.Index(i).Set(zero)
+	}
 	return true, nil
 }
 
